@@ -1,0 +1,203 @@
+// Copyright 2026 Dolthub, Inc.
+//
+// Licensed under the Apache License, Version 2.0 (the "License");
+// you may not use this file except in compliance with the License.
+// You may obtain a copy of the License at
+//
+//     http://www.apache.org/licenses/LICENSE-2.0
+//
+// Unless required by applicable law or agreed to in writing, software
+// distributed under the License is distributed on an "AS IS" BASIS,
+// WITHOUT WARRANTIES OR CONDITIONS OF ANY KIND, either express or implied.
+// See the License for the specific language governing permissions and
+// limitations under the License.
+
+//go:build verif
+
+package nbs
+
+import (
+	"bytes"
+	"context"
+	"sync"
+
+	"golang.org/x/sync/errgroup"
+
+	"github.com/dolthub/dolt/go/store/chunks"
+	"github.com/dolthub/dolt/go/store/hash"
+)
+
+// Re-exports of unexported table-file / journal-record / manifest parsing
+// internals for the /verif correspondence harness (property C10). Add-only;
+// compiled only with -tags verif. Nothing here changes behaviour: the wrappers
+// call the unexported functions unchanged.
+
+// VerifC10BuildTable writes a table file holding |chunkData| with the real
+// tableWriter and returns the file bytes, the table name and the chunk addresses
+// (in input order).
+func VerifC10BuildTable(chunkData [][]byte) (data []byte, name hash.Hash, addrs []hash.Hash, err error) {
+	total := uint64(0)
+	for _, c := range chunkData {
+		total += uint64(len(c))
+	}
+	buff := make([]byte, maxTableSize(uint64(len(chunkData)), total))
+	tw := newTableWriter(buff, nil)
+	for _, c := range chunkData {
+		a := computeAddr(c)
+		addrs = append(addrs, a)
+		tw.addChunk(a, c)
+	}
+	length, blockHash, err := tw.finish()
+	if err != nil {
+		return nil, hash.Hash{}, nil, err
+	}
+	return buff[:length], blockHash, addrs, nil
+}
+
+// VerifC10Table wraps the chunkSource returned by newFileTableReader.
+type VerifC10Table struct {
+	cs chunkSource
+}
+
+// VerifC10OpenTable is newFileTableReader over |dir|/|name| with the chunk count a manifest would carry.
+func VerifC10OpenTable(ctx context.Context, dir string, name hash.Hash, chunkCount uint32) (*VerifC10Table, error) {
+	cs, err := newFileTableReader(ctx, dir, name, chunkCount, NewUnlimitedMemQuotaProvider(), false, noopRefCounter{}, &Stats{})
+	if err != nil {
+		return nil, err
+	}
+	return &VerifC10Table{cs: cs}, nil
+}
+
+// Has is chunkReader.has.
+func (t *VerifC10Table) Has(h hash.Hash) (bool, error) {
+	ok, _, err := t.cs.has(h, nil)
+	return ok, err
+}
+
+// Get is chunkReader.get; a nil slice means absent.
+func (t *VerifC10Table) Get(ctx context.Context, h hash.Hash) ([]byte, error) {
+	data, _, err := t.cs.get(ctx, h, nil, &Stats{})
+	return data, err
+}
+
+// GetMany drives chunkReader.getMany the way NomsBlockStore.getManyWithFunc does
+// (sorted getRecords, errgroup, wait).
+func (t *VerifC10Table) GetMany(ctx context.Context, hs []hash.Hash) (found map[hash.Hash][]byte, remaining bool, err error) {
+	set := hash.NewHashSet(hs...)
+	reqs := toGetRecords(set)
+	found = map[hash.Hash][]byte{}
+	var mu sync.Mutex
+	eg, ectx := errgroup.WithContext(ctx)
+	remaining, _, err = t.cs.getMany(ectx, eg, reqs, func(_ context.Context, c *chunks.Chunk) {
+		mu.Lock()
+		defer mu.Unlock()
+		found[c.Hash()] = append([]byte{}, c.Data()...)
+	}, nil, &Stats{})
+	werr := eg.Wait()
+	if err == nil {
+		err = werr
+	}
+	return found, remaining, err
+}
+
+// IterateAll is chunkSource.iterateAllChunks.
+func (t *VerifC10Table) IterateAll(ctx context.Context, cb func(h hash.Hash, data []byte)) error {
+	return t.cs.iterateAllChunks(ctx, func(c chunks.Chunk) {
+		cb(c.Hash(), c.Data())
+	}, &Stats{})
+}
+
+// Count is chunkReader.count.
+func (t *VerifC10Table) Count() uint32 { return t.cs.count() }
+
+// Close is chunkReader.close.
+func (t *VerifC10Table) Close() error { return t.cs.close() }
+
+// VerifC10Crc is crc().
+func VerifC10Crc(b []byte) uint32 { return crc(b) }
+
+// VerifC10ChunkRecord returns the journal chunk record written by writeChunkRecord for |data|.
+func VerifC10ChunkRecord(data []byte) (rec []byte, addr hash.Hash) {
+	cc := ChunkToCompressedChunk(chunks.NewChunk(data))
+	sz, _ := chunkRecordSize(cc)
+	buf := make([]byte, sz)
+	n := writeChunkRecord(buf, cc)
+	return buf[:n], cc.H
+}
+
+// VerifC10RootRecord returns the journal root hash record written by writeRootHashRecord.
+func VerifC10RootRecord(root hash.Hash) []byte {
+	buf := make([]byte, rootHashRecordSize())
+	n := writeRootHashRecord(buf, root)
+	return buf[:n]
+}
+
+// VerifC10JournalRec is the projection of a journalRec handed to the scan callback.
+type VerifC10JournalRec struct {
+	Off        int64
+	Kind       uint8
+	Addr       hash.Hash
+	PayloadLen int
+	Length     uint32
+}
+
+// VerifC10ScanJournal runs processJournalRecords over |data| (an in-memory
+// io.ReadSeeker, so nothing is truncated) and returns the accepted records, the
+// stop offset, the warnings count and the error.
+func VerifC10ScanJournal(ctx context.Context, data []byte) (recs []VerifC10JournalRec, off int64, warnings int, err error) {
+	off, err = processJournalRecords(ctx, "verif", bytes.NewReader(data), false, 0, func(o int64, r journalRec) error {
+		recs = append(recs, VerifC10JournalRec{Off: o, Kind: uint8(r.kind), Addr: r.address, PayloadLen: len(r.payload), Length: r.length})
+		return nil
+	}, func(error) { warnings++ })
+	return recs, off, warnings, err
+}
+
+// VerifC10ValidateJournalRecord is validateJournalRecord.
+func VerifC10ValidateJournalRecord(buf []byte) error { return validateJournalRecord(buf) }
+
+// VerifC10IsDataLoss reports whether |err| is the journal data loss error.
+func VerifC10IsDataLoss(err error) bool {
+	return err != nil && bytes.Contains([]byte(err.Error()), []byte(ErrJournalDataLoss.Error()))
+}
+
+// VerifC10Spec is a manifest table spec.
+type VerifC10Spec struct {
+	Name  hash.Hash
+	Count uint32
+}
+
+// VerifC10Manifest is the projection of manifestContents.
+type VerifC10Manifest struct {
+	Vers    string
+	NbfVers string
+	Lock    hash.Hash
+	Root    hash.Hash
+	GcGen   hash.Hash
+	Specs   []VerifC10Spec
+}
+
+// VerifC10ParseManifest is parseManifest over |data|.
+func VerifC10ParseManifest(data []byte) (VerifC10Manifest, error) {
+	mc, err := parseManifest(bytes.NewReader(data))
+	if err != nil {
+		return VerifC10Manifest{}, err
+	}
+	m := VerifC10Manifest{Vers: mc.manifestVers, NbfVers: mc.nbfVers, Lock: mc.lock, Root: mc.root, GcGen: mc.gcGen}
+	for _, s := range mc.specs {
+		m.Specs = append(m.Specs, VerifC10Spec{Name: s.name, Count: s.chunkCount})
+	}
+	return m, nil
+}
+
+// VerifC10WriteManifest is writeManifest for a v5 manifest with the given fields.
+func VerifC10WriteManifest(nbfVers string, lock, root, gcGen hash.Hash, specs []VerifC10Spec) ([]byte, error) {
+	mc := manifestContents{manifestVers: StorageVersion, nbfVers: nbfVers, lock: lock, root: root, gcGen: gcGen}
+	for _, s := range specs {
+		mc.specs = append(mc.specs, tableSpec{name: s.Name, chunkCount: s.Count})
+	}
+	var b bytes.Buffer
+	if err := writeManifest(&b, mc); err != nil {
+		return nil, err
+	}
+	return b.Bytes(), nil
+}
